@@ -395,7 +395,7 @@ _c15 = [
     _lower_h('C15', 2, 2, 1, False, Q), _lower_h('C15', 2, 1, 0, True, Q),
     _lower_h('C15', 2, 2, 0, False, T), _lower_h('C15', 3, 2, 1, False, T), _lower_h('C15', 2, 2, 1, True, T),
 ]
-for (dep, cap, m, tiers) in ((1, 3, 2, Q), (1, 1, 2, Q), (1, 4, 0, Q), (1, 4, 3, Q), (0, 4, 4, Q), (1, 4, 1, T), (1, 2, 2, T), (2, 4, 4, T), (1, 1, 3, T), (0, 3, 3, T)):
+for (dep, cap, m, tiers) in ((1, 3, 2, Q), (1, 1, 2, Q), (1, 4, 0, Q), (1, 4, 1, Q), (1, 4, 3, T), (0, 4, 4, T), (1, 2, 2, T), (2, 4, 4, T), (1, 1, 3, T), (0, 3, 3, T)):
     B = 'nested::bmoc::'
     us = dict(_bmoc_unwindset(1, 1, dep, 2))
     us.update({B + 'BMOCBuilderFixedDepth::buff_to_bmoc#0': m + 1, B + 'BMOCBuilderFixedDepth::largest_lower_cell_sequence_len#0': m + 1,
@@ -403,7 +403,7 @@ for (dep, cap, m, tiers) in ((1, 3, 2, Q), (1, 1, 2, Q), (1, 4, 0, Q), (1, 4, 3,
                B + 'verif_c15::p_fixed_builder#2': 6, 'verif_common::spec_scan#0': m + 8,
                B + 'verif_c15::model_sort#0': 5, B + 'verif_c15::model_sort#1': 5})
     _c15.append(H('c15_fixed_d%d_cap%d_m%d' % (dep, cap, m), 'k_fixed_builder(%d, %d, %d);' % (dep, cap, m), tiers=tiers,
-                  timeout=1800 if tiers is Q else 3600, mem_gb=10, unwind=m + 2, unwindset=us,
+                  timeout=1800 if tiers is Q else 5400, mem_gb=10 if tiers is Q else 40, unwind=m + 2, unwindset=us,
                   stubs=_bmoc_stubs('verif_c15') + _bmoc_cut_pack('verif_c15') + [('<[u64]>::sort_unstable', 'crate::nested::bmoc::verif_c15::model_sort')],
                   inputs=[('is_full', 'bool'), ('p0', 'u64'), ('p1', 'u64'), ('p2', 'u64'), ('p3', 'u64'), ('c', 'u64')],
                   replay='fixed_builder', replay_const={'depth': dep, 'cap': cap, 'm': m},
@@ -416,7 +416,7 @@ PROPS['C15'] = dict(
                'BMOCBuilderUnsafe::{pack,to_lower_depth,to_bmoc_packing,to_lower_depth_bmoc,to_lower_depth_bmoc_packing,low_depth_raw_val_at_lower_depth}',
                'slice::sort_unstable', 'Vec::dedup'],
     bounds={'quick': 'pack: every valid sequence of 4 entries at depth_max 1 and of 2 entries at depth_max 2; lower depth: 2 entries, 2->1 and 1->0 (packing); '
-                     'fixed-depth builder: depth 1, (capacity, pushes) in {(3,2),(1,2),(4,1),(4,0)}',
+                     'fixed-depth builder: depth 1, (capacity, pushes) in {(3,2),(1,2),(4,1),(4,0)} (2 pushes in any order, duplicates included)',
             'thorough': 'pack: 3 and 4 entries at depth_max 2; lower depth: 3 entries, 2->0; fixed-depth builder: up to 4 pushes, capacities 1..4, depths 0..2'},
     outside='push sequences longer than 4, sequences longer than 4 entries; in the fixed-depth builder harnesses the packing step of `or` is cut (pack is decided by the pack harnesses) '
             'and std slice::sort_unstable is replaced by an insertion-sort model (<= 4 elements, asserted)',
@@ -424,11 +424,12 @@ PROPS['C15'] = dict(
 )
 
 # ------------------------------------------------------------------------------------------- C14
+_FMT = [('std::fmt::format', 'crate::verif_common::stub_format'), ('std::io::_print', 'crate::verif_common::stub_print')]
 _c14 = []
 def _c14_add(d, dl, tiers):
     m = (1 << dl) - 1
     dom = 'depth %d, delta_depth %d: every cell' % (d, dl)
-    common = dict(tiers=tiers, timeout=2400, mem_gb=12)
+    common = dict(tiers=tiers, timeout=2400, mem_gb=12, stubs=_FMT)
     _c14.append(H('c14_internal_d%d_dd%d' % (d, dl), 'k_c14_internal(%d, %d);' % (d, dl), unwind=max(9, d + dl + 1, 4 * m + 2),
                   inputs=[('hash', 'u64'), ('k', 'u32'), ('k2', 'u32')], replay='c14_internal', replay_const={'depth': d, 'delta': dl},
                   covers=['last cell of the walk'], domain=dom + ', every position of the walk / of the sorted list', **common))
@@ -448,11 +449,11 @@ for _d in (0, 1, 2):
     for _dl in (1, 2):
         _c14_add(_d, _dl, Q if (_d, _dl) in ((0, 1), (1, 1), (1, 2)) else T)
 # depth + delta_depth = 29 (the statement includes it)
-_c14.append(H('c14_internal_d28_dd1', 'k_c14_internal(28, 1);', tiers=Q, timeout=1200, mem_gb=8, unwind=30,
+_c14.append(H('c14_internal_d28_dd1', 'k_c14_internal(28, 1);', tiers=Q, timeout=1200, mem_gb=8, unwind=30, stubs=_FMT,
               inputs=[('hash', 'u64'), ('k', 'u32'), ('k2', 'u32')], replay='c14_internal', replay_const={'depth': 28, 'delta': 1},
               covers=['last cell of the walk'], domain='depth 28, delta_depth 1 (depth + delta = 29): every cell'))
 for w in (0, 1, 2):
-    _c14.append(H('c14_guard_%d' % w, 'k_c14_guard(1, 1, %d);' % w, tiers=Q, timeout=1800, mem_gb=12, should_panic=True, unwind=10,
+    _c14.append(H('c14_guard_%d' % w, 'k_c14_guard(1, 1, %d);' % w, tiers=Q, timeout=1800, mem_gb=12, should_panic=True, unwind=10, stubs=_FMT,
                   inputs=[('hash', 'u64')], replay='c14_guard', replay_const={'depth': 1, 'delta': 1, 'which': w},
                   never=['guard bypassed'], domain='depth 1, every cell number >= 48'))
 PROPS['C14'] = dict(
@@ -572,7 +573,7 @@ PROPS['C17'] = dict(
 _c06 = []
 for (_d, _dl, tiers) in ((0, 0, Q), (3, 0, Q), (29, 0, Q), (0, 1, Q), (2, 2, Q), (27, 2, Q), (1, 0, T), (16, 0, T), (5, 3, T), (28, 1, T), (0, 29, T)):
     _c06.append(H('c06_allsky_d%d_dd%d' % (_d, _dl), 'k_c06_allsky(%d, %d);' % (_d, _dl), tiers=tiers, timeout=1200, mem_gb=8, unwind=14,
-                  stubs=_LIBM, inputs=[('lon', 'f64'), ('lat', 'f64')], replay='c06_allsky', replay_const={'depth': _d, 'delta': _dl},
+                  stubs=_LIBM + [('crate::nested::bmoc::BMOCBuilderUnsafe::pack', 'crate::nested::bmoc::verif_c06b::stub_pack_identity')], inputs=[('lon', 'f64'), ('lat', 'f64')], replay='c06_allsky', replay_const={'depth': _d, 'delta': _dl},
                   covers=['NaN centre'],
                   domain='depth %d, delta_depth %d: radius in {pi, next double after pi, 4, 1e300, +inf}, every double centre (incl. NaN)' % (_d, _dl)))
 for (ds, lv, tiers) in ((0, 1, Q), (1, 1, Q), (0, 2, T), (3, 2, T)):
@@ -598,7 +599,8 @@ PROPS['C06'] = dict(
             'thorough': 'adds (depth, delta) (1,0),(16,0),(5,3),(28,1),(0,29); recursion 2 levels'},
     outside='NOT decided (stated in DESIGN.md 5 C06): that `distance <= min` really means "entirely inside the cone" and the radius + 2*c2v tightness -- both need the '
             'true haversine distance and the centre-to-vertex envelope; the small-cone branch (centre cell + neighbours)',
-    assumptions=_LIBM_ASSUME + ['recursion harness: Layer::center replaced by a recorder, distances are arbitrary values in [0, 1] (one per visited cell)',
+    assumptions=_LIBM_ASSUME + ['whole-sky harnesses: BMOCBuilderUnsafe::pack is cut (identity); pack is decided by c06_pack_4_dm1',
+                                'recursion harness: Layer::center replaced by a recorder, distances are arbitrary values in [0, 1] (one per visited cell)',
                                 'allocator-growth model for the BMOC builder (see C07)'],
 )
 
@@ -639,17 +641,21 @@ PROPS['C11'] = dict(
 
 # ------------------------------------------------------------------------------------------- C03 (plane cut)
 _PLANE_CUT_N = lambda mod: [('crate::proj', 'crate::nested::%s::stub_proj' % mod), ('crate::unproj', 'crate::nested::%s::stub_unproj' % mod)]
+def _c03_us(d):
+    return {'verif_common::*': max(6, d + 1), 'nested::verif_c03::*': 6, 'compass_point::*': 6}
+
+
 _c03 = []
 for _d in range(30):
     tq = Q if _d in (0, 1, 2, 29) else T
-    _c03.append(H('c03_cell_d%d' % _d, 'k_c03_cell(%d);' % _d, tiers=tq, timeout=2400, mem_gb=8, unwind=max(5, _d + 1), stubs=_PLANE_CUT_N('verif_c03'),
+    _c03.append(H('c03_cell_d%d' % _d, 'k_c03_cell(%d);' % _d, tiers=tq, timeout=2400, mem_gb=12, unwind=4, unwindset=_c03_us(_d), stubs=_PLANE_CUT_N('verif_c03'),
                   inputs=[('h', 'u64'), ('dxk', 'u32'), ('dyk', 'u32')], replay='c03_cell', replay_const={'depth': _d}, covers=['cell at the north pole'],
                   domain='depth %d: every cell, offsets k/1024 with k symbolic in 1..=1023 (plane cut)' % _d))
-    _c03.append(H('c03_path_d%d' % _d, 'k_c03_path(%d);' % _d, tiers=Q if _d in (0, 2, 29) else T, timeout=2400, mem_gb=8, unwind=max(5, _d + 1),
+    _c03.append(H('c03_path_d%d' % _d, 'k_c03_path(%d);' % _d, tiers=Q if _d in (0, 2, 29) else T, timeout=2400, mem_gb=12, unwind=4, unwindset=_c03_us(_d),
                   stubs=_PLANE_CUT_N('verif_c03'), inputs=[('h', 'u64'), ('t', 'usize'), ('cw', 'bool'), ('sk', 'u8')], replay='c03_cell',
                   replay_const={'depth': _d, 'dxk': 512, 'dyk': 512}, covers=['last grid point', 'first path point, clockwise'],
                   domain='depth %d: every cell, every point of the 12-point edge path (both directions, 4 starting vertices) and of the 3x3 grid' % _d))
-    _c03.append(H('c03_image_d%d' % _d, 'k_c03_image(%d);' % _d, tiers=Q if _d in (0, 1, 2) else T, timeout=2400, mem_gb=8, unwind=max(5, _d + 1),
+    _c03.append(H('c03_image_d%d' % _d, 'k_c03_image(%d);' % _d, tiers=Q if _d in (0, 1, 2) else T, timeout=2400, mem_gb=12, unwind=4, unwindset=_c03_us(_d),
                   stubs=_PLANE_CUT_N('verif_c03'), inputs=[('x', 'f64'), ('y', 'f64')], replay='c03_pullback', replay_const={'depth': _d},
                   covers=['north pole', 'on a polar seam', 'x = 8'],
                   domain='depth %d: every double point of the HEALPix image (x in [0, 8], y in [-2, 2])' % _d))
@@ -675,8 +681,8 @@ _c19 = []
 for _d in range(30):
     for reg in (0, 1):
         tq = Q if (_d in (0, 1, 2) and reg == 0) or (_d in (0, 1, 3) and reg == 1) else T
-        _c19.append(H('c19_%s_d%d' % ('any' if reg == 0 else 'corner', _d), 'k_c19_point(%d, %d);' % (_d, reg), tiers=tq, timeout=2400, mem_gb=8,
-                      unwind=max(9, _d + 1), stubs=_PLANE_CUT_N('verif_c19'), inputs=[('x', 'f64'), ('y', 'f64')], replay='c19_pullback',
+        _c19.append(H('c19_%s_d%d' % ('any' if reg == 0 else 'corner', _d), 'k_c19_point(%d, %d);' % (_d, reg), tiers=tq, timeout=2400, mem_gb=12,
+                      unwind=4, unwindset={'verif_common::*': max(6, _d + 1), 'nested::verif_c19::*': 10, 'compass_point::*': 10}, stubs=_PLANE_CUT_N('verif_c19'), inputs=[('x', 'f64'), ('y', 'f64')], replay='c19_pullback',
                       replay_const={'depth': _d}, covers=['north quadrant', 'west quadrant'],
                       domain='depth %d: every double point of the HEALPix image%s' % (_d, '' if reg == 0 else ' whose cell lacks a S / E / N / W neighbour')))
 PROPS['C19'] = dict(
